@@ -237,6 +237,7 @@ pub fn run_history_on<P: Payload>(w: &mut World<P>, ops: &[Op], prof: &Profile, 
         if let Op::Probe { seed } = op {
             let d = deep_at(w, *seed, &prof.deep, cfg);
             run.evals += d.evals;
+            dig = splitmix(dig ^ d.digest);
             run.nt.extend(d.nt.iter().copied());
             run.concrete.push(op.clone());
             if record {
@@ -305,6 +306,16 @@ pub fn run_history_on<P: Payload>(w: &mut World<P>, ops: &[Op], prof: &Profile, 
                 run.resynced += 1;
                 continue;
             }
+            if !hits && cfg.target.as_deref() == Some("C11") {
+                // the case ends here, but the lookup clauses have no well-formedness premise: judge them on
+                // this state against what the history says about liveness (e.g. a removed node that stays visible)
+                let mut d = DeepOut::default();
+                w.check_lookups(&mut d);
+                if !d.failures.is_empty() {
+                    run.fail = Some((i, d.failures, None));
+                    break;
+                }
+            }
             run.fail = Some((i, so.failures, None));
             break;
         }
@@ -313,6 +324,7 @@ pub fn run_history_on<P: Payload>(w: &mut World<P>, ops: &[Op], prof: &Profile, 
         let seed = splitmix(dig);
         let d = deep_at(w, seed, &prof.deep, cfg);
         run.evals += d.evals;
+        dig = splitmix(dig ^ d.digest);
         run.nt.extend(d.nt.iter().copied());
         if !d.failures.is_empty() {
             run.concrete.push(Op::Probe { seed });
@@ -821,9 +833,10 @@ pub fn shrink<P: Payload>(mut ops: Vec<Op>, prof: &Profile, cfg: &StepCfg, prop:
         }
     }
     // remove an allocating op and renumber later slot references downwards
-    fn renumber(ops: &[Op], from: usize, t: u16) -> Vec<Op> {
+    fn renumber(ops: &[Op], from: usize, t: u32) -> Vec<Op> {
         let dec = |s: &Sel| match s {
             Sel::Slot(k) if *k >= t && *k > 0 => Sel::Slot(k - 1),
+            Sel::SlotAlt(k) if *k >= t && *k > 0 => Sel::SlotAlt(k - 1),
             o => *o,
         };
         ops.iter()
@@ -855,7 +868,7 @@ pub fn shrink<P: Payload>(mut ops: Vec<Op>, prof: &Profile, cfg: &StepCfg, prop:
             if matches!(ops[i], Op::New { .. } | Op::AppendValue { .. }) {
                 let mut cand0 = ops.clone();
                 cand0.remove(i);
-                let maxslot = ops.len() as u16;
+                let maxslot = ops.len() as u32;
                 for t in 0..=maxslot {
                     if budget == 0 {
                         break 'outer;
@@ -1098,7 +1111,7 @@ pub fn alphabet<P: Payload>(w: &World<P>, k: usize, with_payload_ops: bool) -> V
         ops.push(Op::New { v: 1 });
     }
     for s in 0..n {
-        let sel = Sel::Slot(s as u16);
+        let sel = Sel::Slot(s as u32);
         if n < k || has_free {
             ops.push(Op::AppendValue { parent: sel, v: 2 });
         }
@@ -1113,7 +1126,7 @@ pub fn alphabet<P: Payload>(w: &World<P>, k: usize, with_payload_ops: bool) -> V
         for t in 0..n {
             for kind in Kind::ALL {
                 for checked in [true, false] {
-                    ops.push(Op::Insert { kind, checked, target: Sel::Slot(s as u16), node: Sel::Slot(t as u16) });
+                    ops.push(Op::Insert { kind, checked, target: Sel::Slot(s as u32), node: Sel::Slot(t as u32) });
                 }
             }
         }
@@ -1225,13 +1238,13 @@ pub fn shape_scripts(n: usize) -> Vec<Vec<Op>> {
         for cuts in 0..(1u32 << (t.saturating_sub(1))) {
             for variant in 0..3 {
                 let mut ops = Vec::new();
-                let mut next_slot: u16 = 0;
+                let mut next_slot: u32 = 0;
                 if variant == 2 {
                     // slot 0 gets recycled by the first allocation below
                     ops.push(Op::New { v: 0 });
                     ops.push(Op::Remove { x: Sel::Slot(0) });
                 }
-                fn build(t: &Tree, parent: Option<u16>, next_slot: &mut u16, ops: &mut Vec<Op>) -> u16 {
+                fn build(t: &Tree, parent: Option<u32>, next_slot: &mut u32, ops: &mut Vec<Op>) -> u32 {
                     let me = *next_slot;
                     *next_slot += 1;
                     match parent {
@@ -1243,7 +1256,7 @@ pub fn shape_scripts(n: usize) -> Vec<Vec<Op>> {
                     }
                     me
                 }
-                let mut prev_root: Option<u16> = None;
+                let mut prev_root: Option<u32> = None;
                 for (i, tr) in f.iter().enumerate() {
                     let r = build(tr, None, &mut next_slot, &mut ops);
                     if i > 0 && (cuts >> (i - 1)) & 1 == 1 {
